@@ -540,6 +540,9 @@ def parse_obs(s, obs):
     if r.i < len(obs) and obs[r.i] == -778:
         r.next()
         o["over_privileged"] = r.next()      # 1 same CPI view, 0 different, -1 rejected, 2 not run
+    if r.i < len(obs) and obs[r.i] == -779:
+        r.next()
+        o["other_state"] = r.next()          # the same for accounts with no lamports / a foreign owner / data
     return o
 
 
@@ -620,6 +623,11 @@ def predicate(c, obs):
                 "declares (signer + writable everywhere): CPI metas must come from the account set, like the client metas")
     if o.get("over_privileged") == -1:
         return "the program rejects its own instruction when the accounts hold more privileges than the metas ask for"
+    if o.get("other_state") == 0:
+        return ("decode / CPI views change with the accounts' balance, owner or data (same keys and flags): they must speak about "
+                "keys and flags only")
+    if o.get("other_state") == -1:
+        return "the program rejects its own instruction when the accounts hold no lamports / have a foreign owner / carry data"
     return None
 
 
@@ -655,7 +663,7 @@ RULE = ("%d account-set shapes (plain / Signer / Mut / both orders / MaybeSigner
         "Sysvar, Option, Vec with decode length, arrays 0..63, Box, Rest, nested structs, two levels of nesting) each with its "
         "own derived instruction in one InstructionSet; per shape well-formed client values (all present/absent choices, "
         "lengths 0..3, 64/65 for the CPI array bound) and 'wild' values (program-id keys, wrong lengths, overridden "
-        "Program/Sysvar addresses) x six borsh argument types. non-trivial = a well-formed value with valid addresses "
+        "Program/Sysvar addresses) x six borsh argument types; every instruction that reaches its handler is run again with signer + writable on every account, and again with accounts in another state (no lamports, foreign owner, data): the CPI view and the decoded tree must not change. non-trivial = a well-formed value with valid addresses "
         "(all three views are judged)" % len(FAMILY))
 TRUSTED = [
     "Coq 8.16.1 kernel", "extraction (ExtrOcamlBasic only) + runner/driver.ml",
